@@ -110,7 +110,7 @@ class C08(Monitor):
 
     # -- spaces -------------------------------------------------------------------
     def nprog(self):
-        return 300 if self.tier == "quick" else 1500
+        return 300 if self.tier == "quick" else 600
 
     def programs(self):
         out = []
